@@ -298,7 +298,7 @@ def comm_family(ctx, replay_case=None):
     else:
         cases = [dict(c) for c in CORPUS_TC]
         gens = [gen_pair, gen_pair, gen_pair, gen_io, gen_mix]
-        for i in range(ctx.n(400, 8000)):
+        for i in range(ctx.n(300, 8000)):
             cases.append(gens[i % len(gens)](ctx.rng))
     for c in cases:
         c["progs"] = [[tuple(o) for o in pr] for pr in c["progs"]]
